@@ -16,7 +16,7 @@ RULE = ("cases = API call sequences over 1..4 processes (pids 100..999, duplicat
 TRUSTED = ["harness h_fxprof/src/prof.rs (calls the public API, prints serde_json::to_string)", "vlib/c03.py: which JSON column points into which table (the index-column catalogue below), "
            "the rendering of frames as content ids (label text / library name + relative address), the expected resolution of addresses against the mappings added at process creation (C11 covers mapping semantics)",
            "pids, tids and names are generated with fixed digit widths so that the crate's string comparisons agree with the numeric comparisons of the model"]
-ASSUMPTIONS = ["the handle discipline the API documents: handles are used with the thread / process they were created for", "counters and allocation samples only where the format allows them; no JS frames / frame flags / subcategories, no allocation samples (listed in DESIGN.md as not covered)"]
+ASSUMPTIONS = ["the handle discipline the API documents: handles are used with the thread / process they were created for", "counters and allocation samples only where the format allows them; no JS frames / frame flags, no allocation samples (listed in DESIGN.md as not covered)"]
 _state = {}
 
 
@@ -112,15 +112,47 @@ def gen(tier, rng, scale):
         for _ in range(rng.range(0, 3)):
             frames_pool.append("L%s|%s|%s|%s" % (rng.choice(["foo", "bar", "jsfn"]), rng.choice(["-", "f0.c", "g.js", "foo"]), rng.choice(["-", str(rng.below(50))]), rng.choice(["-", str(rng.below(9))])))
 
+        # categories and subcategories: obtained as handles (Q / U ops, the same value again gives the same handle) or passed by value
+        # where a frame is made; two categories may share a name (different colour), subcategory names repeat across categories
+        catvals = [("Other", "grey"), ("Other", "blue"), ("JS", "yellow"), ("Layout", "blue"), ("JS", "green")]
+        subnames = ["Other", "Parse", "GC", "JIT"]
+        nq = [0, 0]                                     # number of Q and U ops so far
+        use_cats = rng.chance(2, 3)
+
+        def cat_op():
+            if nq[0] and rng.chance(1, 2):
+                ops.append(["U", rng.below(nq[0]), rng.choice(subnames)])
+                nq[1] += 1
+            else:
+                cv = rng.choice(catvals)
+                ops.append(["Q", cv[0], cv[1]])
+                nq[0] += 1
+        if use_cats:
+            for _ in range(rng.range(0, 4)):
+                cat_op()
+
+        def with_sc(tok):
+            if not use_cats or not rng.chance(1, 3):
+                return tok
+            r = rng.below(4)
+            if r == 0 and nq[0]:
+                return "%s^c%d" % (tok, rng.below(nq[0]))
+            if r == 1 and nq[1]:
+                return "%s^s%d" % (tok, rng.below(nq[1]))
+            cv = rng.choice(catvals)
+            if r == 2:
+                return "%s^C%s,%s" % (tok, cv[0], cv[1])
+            return "%s^S%s,%s,%s" % (tok, cv[0], cv[1], rng.choice(subnames))
+
         def pick_frames(th, lo, hi):
             out = []
             for _ in range(rng.range(lo, hi)):
                 if spool.get(th) and rng.chance(1, 3):
-                    out.append(rng.choice(spool[th]))
+                    out.append(with_sc(rng.choice(spool[th])))
                     if rng.chance(1, 3):
-                        out.append(rng.choice(spool[th]))                  # inline chains: several frames for one address
+                        out.append(with_sc(rng.choice(spool[th])))                  # inline chains: several frames for one address
                 else:
-                    out.append(rng.choice(frames_pool))
+                    out.append(with_sc(rng.choice(frames_pool)))
             return out
         gkinds = []
         for g in range(rng.choice([0, 1, 2, 2, 3])):
@@ -132,11 +164,13 @@ def gen(tier, rng, scale):
         registered = [g for g in range(len(gkinds)) if g not in pending_g]
         for _ in range(rng.range(5, 60)):
             r = rng.below(100)
+            if use_cats and rng.chance(1, 8):
+                cat_op()
             if r < 60 and threads:
                 th = rng.below(len(threads))
                 t = times.get(th, 100) + rng.range(1, 50)
                 times[th] = t
-                own = [x for x in stacks_pool if x[0] == th or not any(f[0] in "yz" for f in x[1])]
+                own = [x for x in stacks_pool if x[0] == th or not any(f[0] in "yz" for f in x[1])]      # (subcategory suffixes stay valid: handles are never revoked)
                 if own and rng.chance(1, 3):
                     fr = list(rng.choice(own)[1])
                     if rng.chance(1, 2) and fr:
@@ -184,12 +218,30 @@ def _valid(ops):
     hs = []
     out = []
 
+    nq = [0, 0]
+
+    def sc_ok(f):
+        if not isinstance(f, str) or "^" not in f:
+            return True
+        sc = f.split("^", 1)[1]
+        if sc[0] == "c":
+            return int(sc[1:]) < nq[0]
+        if sc[0] == "s":
+            return int(sc[1:]) < nq[1]
+        return True
+
     def frames_ok(th, fr):
-        # a symbolicated frame must use a native symbol handle of its own thread (the API asserts it)
-        return [f for f in fr if not (isinstance(f, str) and f[:1] in "yz") or (int(f.split("|")[1]) < len(hs) and hs[int(f.split("|")[1])] == th)]
+        # a symbolicated frame must use a native symbol handle of its own thread (the API asserts it); category / subcategory handles must exist
+        return [f for f in fr if sc_ok(f) and (not (isinstance(f, str) and f[:1] in "yz") or (int(f.split("|")[1]) < len(hs) and hs[int(f.split("|")[1])] == th))]
     for o in ops:
         k = o[0]
-        if k == "H":
+        if k == "Q":
+            nq[0] += 1
+        elif k == "U":
+            if o[1] >= nq[0]:
+                continue
+            nq[1] += 1
+        elif k == "H":
             if o[1] >= nt or o[2] >= nl:
                 continue
             hs.append(o[1])
@@ -333,7 +385,6 @@ def _coq_case(ops, prof):
     procs, threads, libs, maps = [], [], [], {}
     lpaths = []          # the identity of a library in the content ids is its path (names may repeat)
     samples, mstacks, visible, selected, counters = [], [], [], [], []
-    reqs = []
     mops, nschemas, gtypes, text_ty = [], 0, [], None
     kb = _kinds_by_type(ops)
     KIND = {"u": "KUnique", "s": "KStr", "p": "KStr", "z": "KStr", "n": "KNum"}
@@ -376,8 +427,50 @@ def _coq_case(ops, prof):
         opt = lambda v: None if v == "-" else v
         return int(q[1]), opt(q[2]), opt(q[3]), (None if q[4] == "-" else int(q[4])), (None if q[5] == "-" else int(q[5])), int(q[6])
 
+    COLORS = ["transparent", "lightblue", "red", "lightred", "orange", "blue", "green", "purple", "yellow", "brown", "magenta", "lightgreen", "grey", "darkgray"]
+    cops, qmap, umap, qvals, uvals = [], [], [], [], []      # category requests in call order; Q# / U# -> index of its request; what they named
+
+    def sc_request(sc):
+        """index of the category request whose result the frame is given (None = CategoryHandle::OTHER); by-value forms are requests of their own"""
+        if sc is None:
+            return None
+        if sc[0] == "c":
+            return qmap[int(sc[1:])]
+        if sc[0] == "s":
+            return umap[int(sc[1:])]
+        q = sc[1:].split(",")
+        if sc[0] == "C":
+            cops.append("(CCat %d %d)" % (S(q[0]), COLORS.index(q[1])))
+        else:
+            cops.append("(CSubVal %d %d %d)" % (S(q[0]), COLORS.index(q[1]), S(q[2])))
+        return len(cops) - 1
+
+    def sc_named(sc):
+        """(category name, colour, subcategory name) the caller named"""
+        if sc is None:
+            return ("Other", "grey", "Other")
+        if sc[0] == "c":
+            return qvals[int(sc[1:])] + ("Other",)
+        if sc[0] == "s":
+            return uvals[int(sc[1:])]
+        q = sc[1:].split(",")
+        return (q[0], q[1], "Other") if sc[0] == "C" else (q[0], q[1], q[2])
+
+    class ReqList(list):
+        def append(self, x, sc=None):
+            list.append(self, x)
+            req_sc.append(sc)
+    req_sc = []
+    reqs = ReqList()
+
     def request(th, p, f):
         """the table request a frame causes (same resolution as `expect`)"""
+        f, _, sc = f.partition("^")
+        scj = sc_request(sc or None)
+        _request(th, p, f)
+        req_sc[-1] = scj
+
+    def _request(th, p, f):
         if f[0] == "l":
             reqs.append("(%d%%nat, FLabel %d)" % (th, S(f[1:])))
             return
@@ -403,7 +496,12 @@ def _coq_case(ops, prof):
                 reqs.append("(%d%%nat, FNativeSym %d%%nat %d %d %d %d)" % (th, hit[0], hit[1], sy[0], S(sy[2]), S(libs[hit[0]])))
 
     def expect(th, p, f):
-        """content id of the frame the caller named: (function name, library, relative address, file, line, column, inline depth, native symbol)"""
+        """content id of the frame the caller named: (function name, library, relative address, file, line, column, inline depth, native symbol) and
+        the category, colour and subcategory names"""
+        f, _, sc = f.partition("^")
+        return I(("FC", _expect(th, p, f), sc_named(sc or None)))
+
+    def _expect(th, p, f):
         if f[0] == "l":
             return I(("F", _e(f[1:]), None, None, None, None, None, 0, None))
         if f[0] == "L":
@@ -450,6 +548,14 @@ def _coq_case(ops, prof):
             threads.append([o[1], o[2], o[3], o[4], None])
         elif k == "N":
             threads[o[1]][4] = int(o[2][2:])
+        elif k == "Q":
+            cops.append("(CCat %d %d)" % (S(o[1]), COLORS.index(o[2])))
+            qmap.append(len(cops) - 1)
+            qvals.append((o[1], o[2]))
+        elif k == "U":
+            cops.append("(CSub %d%%nat %d)" % (qmap[o[1]], S(o[2])))
+            umap.append(len(cops) - 1)
+            uvals.append(qvals[o[1]] + (o[2],))
         elif k == "H":
             nsh.append((o[1], o[2], o[3]))
             ns_first.setdefault((o[1], o[2], o[3]), o[5])
@@ -513,7 +619,11 @@ def _coq_case(ops, prof):
                 fl = None if fl is None else strings[fl]
                 ns = ft["nativeSymbol"][i]
                 ns = None if ns is None else (prof["libs"][nst["libIndex"][ns]]["path"], nst["address"][ns])
-                fids.append(I(("F", name, lib, addr, fl, ft["line"][i], ft["column"][i], ft["inlineDepth"][i], ns)))
+                ci, si = ft["category"][i], ft["subcategory"][i]
+                if not (isinstance(ci, int) and isinstance(si, int) and ci >= 0 and si >= 0):
+                    raise ValueError("category")
+                cat = prof["meta"]["categories"][ci]
+                fids.append(I(("FC", I(("F", name, lib, addr, fl, ft["line"][i], ft["column"][i], ft["inlineDepth"][i], ns)), (cat["name"], cat["color"], cat["subcategories"][si]))))
             except Exception:
                 fids.append(I(("BAD", i)))
         st = th["stackTable"]
@@ -541,7 +651,7 @@ def _coq_case(ops, prof):
     for th in prof["threads"]:
         ft, fu, rt = th["frameTable"], th["funcTable"], th["resourceTable"]
         oN = lambda l: K.coq_list(["None" if x is None else "(Some %d)" % x for x in l])
-        otables.append("(%s, %s, %s, %s, %s, %s, %s, %s, %s, %s, %s, (%s, %s, %s, %s))" % (
+        otables.append("(%s, %s, %s, %s, %s, %s, %s, %s, %s, %s, %s, (%s, %s, %s, %s), (%s, %s))" % (
             K.coq_list([str(S(x)) for x in th["stringArray"]]),
             K.coq_list(["%d%%nat" % x for x in rt["lib"]]), K.coq_list(["%d%%nat" % x for x in rt["name"]]),
             K.coq_list(["%d%%nat" % x for x in fu["name"]]), K.coq_list([_opt(x) for x in fu["resource"]]),
@@ -550,7 +660,9 @@ def _coq_case(ops, prof):
             K.coq_list([_opt(x) for x in ft["nativeSymbol"]]),
             K.coq_list(["%d%%nat" % x for x in th["nativeSymbols"]["libIndex"]]), K.coq_list([str(x) for x in th["nativeSymbols"]["address"]]),
             K.coq_list(["%d%%nat" % x for x in th["nativeSymbols"]["name"]]),
-            K.coq_list([_opt(x) for x in fu["fileName"]]), oN(ft["line"]), oN(ft["column"]), K.coq_list([str(x) for x in ft["inlineDepth"]])))
+            K.coq_list([_opt(x) for x in fu["fileName"]]), oN(ft["line"]), oN(ft["column"]), K.coq_list([str(x) for x in ft["inlineDepth"]]),
+            K.coq_list(["%d%%nat" % (x if isinstance(x, int) and x >= 0 else BAD) for x in ft["category"]]),
+            K.coq_list(["%d%%nat" % (x if isinstance(x, int) and x >= 0 else BAD) for x in ft["subcategory"]])))
     obmarkers = []
     for th in prof["threads"]:
         strings = th["stringArray"]
@@ -587,14 +699,20 @@ def _coq_case(ops, prof):
     meta = prof["meta"]
     obc = ["(%d%%nat, %s)" % (c["mainThreadIndex"], _id(c["pid"])) for c in prof.get("counters", [])]
     nat = lambda l: K.coq_list(["%d%%nat" % x for x in l])
-    return "(mkCase %s %s %s %s %s %s %s %s %s %s %s %s %s %s %s %s)" % (
+    obcats = []
+    for c in meta.get("categories", []):
+        col = c.get("color")
+        obcats.append("(%d, %d, %s)" % (S(c.get("name")), COLORS.index(col) if col in COLORS else BAD, K.coq_list([str(S(x)) for x in c.get("subcategories", [])])))
+    assert len(req_sc) == len(reqs)
+    return "(mkCase %s %s %s %s %s %s %s %s %s %s %s %s %s %s %s %s %d 12 %s %s %s)" % (
         K.coq_list(["(%d, %d)" % p for p in procs]),
         K.coq_list(["(%d%%nat, %d, %d, %s, %s)" % (t[0], t[1], t[2], "true" if t[3] else "false", "None" if t[4] is None else "(Some %d)" % t[4]) for t in threads]),
         K.coq_list(["(%d%%nat, %d, %s)" % (h, t, nat(fr)) for h, t, fr in samples]),
         K.coq_list(["(%d%%nat, %s)" % (h, nat(fr)) for h, fr in mstacks]),
         nat(visible), nat(selected), nat(counters), K.coq_list(oth),
         nat(meta.get("initialVisibleThreads", [])), nat(meta.get("initialSelectedThreads", [])), K.coq_list(obc),
-        K.coq_list(reqs), K.coq_list(oblibs), K.coq_list(otables), K.coq_list(mops), K.coq_list(obmarkers))
+        K.coq_list(reqs), K.coq_list(oblibs), K.coq_list(otables), K.coq_list(mops), K.coq_list(obmarkers),
+        S("Other"), K.coq_list(cops), K.coq_list(["None" if x is None else "(Some %d%%nat)" % x for x in req_sc]), K.coq_list(obcats))
 
 
 def evaluate(cases):
@@ -627,6 +745,9 @@ def evaluate(cases):
             stats["runtime_schema_markers"] = stats.get("runtime_schema_markers", 0) + sum(1 for d in th["markers"]["data"] if isinstance(d, dict) and d.get("type") != "Text")
             stats["marker_fields"] = stats.get("marker_fields", 0) + sum(max(len(d) - 1 - ("cause" in d), 0) for d in th["markers"]["data"] if isinstance(d, dict))
             stats["native_symbols"] = stats.get("native_symbols", 0) + th["nativeSymbols"]["length"]
+        stats["categories"] = stats.get("categories", 0) + len(prof["meta"].get("categories", []))
+        stats["named_subcategories"] = stats.get("named_subcategories", 0) + sum(max(len(c.get("subcategories", [])) - 1, 0) for c in prof["meta"].get("categories", []))
+        stats["frames_outside_default_category"] = stats.get("frames_outside_default_category", 0) + sum(1 for th in prof["threads"] for a, b in zip(th["frameTable"]["category"], th["frameTable"]["subcategory"]) if a or b)
         stats["counters"] += len(prof.get("counters", []))
         stats["visible_refs"] += len(prof["meta"].get("initialVisibleThreads", []))
         c["_summary"] = {"threads": [(t["pid"], t["tid"], t["name"], t["isMainThread"]) for t in prof["threads"]],
@@ -636,7 +757,7 @@ def evaluate(cases):
         idx.append(i)
     shards = [K.case_defs("c03case", ch) for ch in K.chunked(terms, K.NCPU)]
     try:
-        res = K.coq_eval(PROP, "From SV Require Import Model.ProfileTables Model.FrameTables Model.MarkerTable Tie.C03.\nOpen Scope N_scope.", shards)
+        res = K.coq_eval(PROP, "From SV Require Import Model.ProfileTables Model.FrameTables Model.MarkerTable Model.Categories Tie.C03.\nOpen Scope N_scope.", shards)
     except RuntimeError as ex:
         raise K.TieBroken(str(ex))
     flat = [v for r in res for v in r]
